@@ -26,7 +26,7 @@ SHAPES_THOROUGH = [(8, 1, 30), (16, 1, 15), (3, 5, 10), (4, 20, 5)]
 def build():
     env = dict(os.environ)
     env["CARGO_NET_OFFLINE"] = "true"
-    env["RUSTFLAGS"] = "-Awarnings -Zsanitizer=thread --cfg cryptocorrosion_verif"
+    env["RUSTFLAGS"] = "-Awarnings -Zsanitizer=thread"
     env.pop("CARGO_TARGET_DIR", None)
     cmd = ["cargo", "+nightly", "build", "-q", "-Zbuild-std", "--target", "x86_64-unknown-linux-gnu", "--offline", "--target-dir", TDIR]
     t0 = time.time()
